@@ -81,9 +81,17 @@ fn hex(b: &[u8]) -> String {
     b.iter().map(|x| format!("{x:02x}")).collect()
 }
 
+/// removes the /dev/shm directory of one target when the iteration ends
+struct ShmDir(String);
+impl Drop for ShmDir {
+    fn drop(&mut self) {
+        let _ = std::fs::remove_dir_all(&self.0);
+    }
+}
+
 pub fn run(rep: &mut Report, thorough: bool) {
     crate::util::install_quiet_panic_hook();
-    rep.rule = "targets mapping 0..12 synthetic ELF images like a loader would (build id in PT_NOTE / only in the section table / absent -> XOR fold / all-zero; with/without SONAME; with/without section table; deleted on disk; mapped out of an archive at a non-zero file offset; file names with spaces, UTF-8, .so.N.M tails; the same file twice) plus non-ELF file mappings, and 0..3 caller mappings that contain / partially overlap / are disjoint from target groups with empty or 20-byte identifiers. Oracle: groups from the checker's own /proc/<pid>/maps parse; ids and SONAMEs from the independent ELF reader applied to the image bytes the harness wrote, to the real libraries' files and to the vDSO read from /proc/<pid>/mem. distinct = hash(file specs, user mappings); non-trivial = Ok dump with >= 1 synthetic module judged".into();
+    rep.rule = "targets mapping 0..12 synthetic ELF images like a loader would (build id in PT_NOTE / only in the section table / absent -> XOR fold / all-zero; with/without SONAME; with/without section table; deleted on disk; mapped from a file under /dev/shm; mapped out of an archive at a non-zero file offset; file names with spaces, UTF-8, .so.N.M tails; the same file twice) plus non-ELF file mappings, and 0..3 caller mappings that contain / partially overlap / are disjoint from target groups with empty or 20-byte identifiers. Oracle: groups from the checker's own /proc/<pid>/maps parse; ids and SONAMEs from the independent ELF reader applied to the image bytes the harness wrote, to the real libraries' files and to the vDSO read from /proc/<pid>/mem. distinct = hash(file specs, user mappings); non-trivial = Ok dump with >= 1 synthetic module judged".into();
     let mut rng = Rng::new(rep.seed.wrapping_mul(808_081));
     let ntargets = if thorough { 4000 } else { 60 };
     for ti in 0..ntargets {
@@ -91,6 +99,9 @@ pub fn run(rep: &mut Report, thorough: bool) {
         b.spec.dir = crate::target::new_dir("c08");
         let dir = b.spec.dir.clone();
         let mut files: Vec<FileTruth> = Vec::new();
+        // some images are mapped from files under /dev (tmpfs at /dev/shm): such a file must never
+        // be opened by the writer, but the image in memory is a module like any other
+        let shm_dir = ShmDir(format!("/dev/shm/vh-c08-{}-{ti}", std::process::id()));
         let nfiles = if ti == 0 { 0 } else { rng.range(1, if thorough { 12 } else { 6 }) as usize };
         for k in 0..nfiles {
             let mut spec = ElfSpec::random(&mut rng);
@@ -109,7 +120,11 @@ pub fn run(rep: &mut Report, thorough: bool) {
             };
             let pad = if rng.chance(1, 5) { PAGE * rng.range(1, 3) } else { 0 };
             let delete = rng.chance(1, 5);
-            scen::add_elf_file_ex(&mut b, &mut rng, &dir, &name, spec, delete, pad, &mut files);
+            let under_dev = rng.chance(1, 5) && std::fs::create_dir_all(&shm_dir.0).is_ok();
+            scen::add_elf_file_ex(&mut b, &mut rng, if under_dev { &shm_dir.0 } else { &dir }, &name, spec, delete, pad, &mut files);
+            if under_dev {
+                rep.count("images_mapped_from_dev_shm", 1);
+            }
             if rng.chance(1, 6) {
                 // the same file a second time, elsewhere
                 let f = files.last().unwrap().clone();
@@ -210,7 +225,7 @@ pub fn run(rep: &mut Report, thorough: bool) {
                     let id_src = facts.build_id.as_ref().map(|x| x.1.clone());
                     let deleted = ft.map(|f| f.deleted).unwrap_or(false);
                     let needs_file = id_src != Some(elf::IdSource::PhdrNote);
-                    if (deleted || pad > 0) && needs_file {
+                    if (deleted || pad > 0 || g.name.starts_with("/dev/")) && needs_file {
                         // the id is only reachable through the section table, which is not in
                         // memory; the file is gone / the file as a whole is an archive, not an ELF
                         rep.count("groups_not_judged(id only via sections and file unusable)", 1);
@@ -340,6 +355,7 @@ pub fn run(rep: &mut Report, thorough: bool) {
         }
     }
     rep.require("modules_compared", 10);
+    rep.require("images_mapped_from_dev_shm", 3);
     rep.require("caller_mappings_checked", 1);
     rep.require("entry_point_order_checked", 3);
 }
